@@ -244,9 +244,33 @@ func (e *Exec) goTime(v Value) time.Time {
 	}
 	t := time.Unix(0, ns.C)
 	if local {
-		return t.Local()
+		return t.In(locOf(v))
 	}
 	return t.UTC()
+}
+
+// locOf: the Go location a modelled Time carries (nil pointer: UTC; else a cell holding a native *time.Location).
+func locOf(v Value) *time.Location {
+	st := v.(Struct)
+	p, _ := st[2].(*Value)
+	if p == nil {
+		return time.UTC
+	}
+	if n, ok := (*p).(*Native); ok && n.Kind == "loc" {
+		if l, ok := n.V.(*time.Location); ok && l != nil {
+			return l
+		}
+	}
+	return time.Local
+}
+
+// timeIn builds the modelled Time for a concrete instant in the location held by cell (nil: UTC).
+func timeIn(ns int64, cell *Value) Value {
+	var loc Value = (*Value)(nil)
+	if cell != nil {
+		loc = cell
+	}
+	return Struct{Int{W: 64, C: 1}, Int{W: 64, Sg: true, C: ns}, loc}
 }
 
 func (e *Exec) ioEOF() Value {
@@ -277,12 +301,38 @@ func moreIntrinsics() map[string]intrinsic {
 			for i := 0; i < 7; i++ {
 				v[i] = e.concInt(a[i])
 			}
-			t := time.Date(v[0], time.Month(v[1]), v[2], v[3], v[4], v[5], v[6], time.UTC)
-			_, local := a[7].(*Value)
-			if p, ok := a[7].(*Value); ok && p == nil {
-				local = false
+			cell, _ := a[7].(*Value)
+			loc := time.UTC
+			if cell != nil {
+				if n, ok := (*cell).(*Native); ok && n.Kind == "loc" {
+					if l, ok := n.V.(*time.Location); ok && l != nil {
+						loc = l
+					}
+				}
 			}
-			return e.mkTime(Int{W: 64, Sg: true, C: t.UnixNano()}, local), true
+			t := time.Date(v[0], time.Month(v[1]), v[2], v[3], v[4], v[5], v[6], loc)
+			return timeIn(t.UnixNano(), cell), true
+		},
+		"time.FixedZone": func(e *Exec, a []Value) (Value, bool) {
+			cell := new(Value)
+			*cell = &Native{Kind: "loc", V: time.FixedZone(a[0].(Str).Conc(), e.concInt(a[1]))}
+			return cell, true
+		},
+		"(time.Time).Truncate": func(e *Exec, a []Value) (Value, bool) {
+			d := a[1].(Int)
+			if d.S != nil {
+				panic(unsupported("time.Truncate by a symbolic duration"))
+			}
+			t := e.goTime(a[0]).Truncate(time.Duration(d.C))
+			cell, _ := a[0].(Struct)[2].(*Value)
+			return timeIn(t.UnixNano(), cell), true
+		},
+		"(time.Time).In": func(e *Exec, a []Value) (Value, bool) {
+			cell, _ := a[1].(*Value)
+			return timeIn(e.goTime(a[0]).UnixNano(), cell), true
+		},
+		"(time.Time).UTC": func(e *Exec, a []Value) (Value, bool) {
+			return timeIn(e.goTime(a[0]).UnixNano(), nil), true
 		},
 		"time.Unix": func(e *Exec, a []Value) (Value, bool) {
 			sec, nsec := a[0].(Int), a[1].(Int)
@@ -327,7 +377,8 @@ func moreIntrinsics() map[string]intrinsic {
 			if !s1 {
 				panic(unsupported("time.Add on the zero Time"))
 			}
-			return e.mkTime(e.intBin(token.ADD, n1, a[1].(Int)), l), true
+			_ = l
+			return Struct{Int{W: 64, C: 1}, e.intBin(token.ADD, n1, a[1].(Int)), a[0].(Struct)[2]}, true
 		},
 		"(time.Time).UnixNano": func(e *Exec, a []Value) (Value, bool) {
 			_, n1, _ := timeOf(a[0])
